@@ -19,6 +19,11 @@ def run_interop_scenario(plan, sched_values=None, sched_seed=0):
     tape = Tape(seed=sched_seed, values=sched_values)
     k = K.Kernel(tape, horizon=plan.get('horizon', 60.0),
                  step_cap=plan.get('step_cap', 300000))
+    k.fixed_latency = plan.get('fixed_latency')
+    if plan.get('line'):
+        import engineio as _e
+        import os as _os
+        k.enable_lines(plan['line'], (_os.path.dirname(_e.__file__) + '/',))
     world = make_world(plan['server'], k,
                        config=_config_from_plan(plan.get('config', {})),
                        app_opts=plan.get('app_opts', {}),
